@@ -42,6 +42,14 @@ package gremfam
 // production updates, whether leaving the dev/test updates out would change the analysis,
 // agreement of the reference analysis with both runs), never for the verdict.
 //
+// Local parent poms (Maven): 45% of the pom.xml manifests sit below one or two local parent
+// poms (universe.PomChain: several directory layouts and <relativePath> forms, the middle pom
+// and the manifest mostly inheriting groupId and/or version), and each requirement is declared
+// in one file of the chain. FixVulns rewrites the files in place; run 2 analyses a copy of
+// every file below the directory the manifest tree was written into, so what the fresh
+// analysis reads is what run 1 left on disk, parents included. Nothing in the oracle is special
+// for them.
+//
 // Aliased duplicates (npm): a share of the package.json files requires one registry package
 // twice in one section under different keys ("lib": "1.0.0" next to
 // "lib-legacy": "npm:lib@0.9.0", or two aliases). Nothing in the oracle is special for them.
@@ -92,6 +100,7 @@ func genC12(driver string, col *ev.Collector) func(*rapid.T) c12Case {
 		cfg.AliasDuplicates = 30                               // npm: share of manifests with an aliased duplicate requirement
 		cfg.LinkedAdvisories = 35                              // advisories naming other advisories of the scenario in `aliases`
 		cfg.DevShared = 40                                     // dev/test scoped direct requirement on a package production requirements reach too
+		cfg.PomChains = 45                                     // Maven: local parent poms above the manifest, requirements declared in any file of the chain
 		explicit := pct(t, "explicit?") < 35
 		if explicit {
 			// an explicit list is a proper subset of the advisories: have enough of them
@@ -106,6 +115,7 @@ func genC12(driver string, col *ev.Collector) func(*rapid.T) c12Case {
 		honourAliasDupSection(col, &c.Manifest)
 		honourDepMgmtClass(col, "c12", &c.Manifest)
 		honourDepMgmtRange(col, "c12", &c.Manifest)
+		honourChainMgmtNearer(col, "c12", &c.Manifest)
 		o := remOpts{DevDeps: pct(t, "dev_deps") < 55, MaxDepth: -1}
 		if pct(t, "max_depth?") < 40 {
 			o.MaxDepth = universe.IntIn(t, 1, 3, "max_depth")
@@ -371,8 +381,9 @@ func propC12(c c12Case) (ev.Outcome, error) {
 			}
 		}
 	}
-	// run 2 on a copy of what run 1 wrote
-	path2, err := copyFile(path1, filepath.Join(w.Dir, "run2"))
+	c12WrittenClasses(c, path0, path1, cls)
+	// run 2 on a copy of what run 1 wrote (every file: the manifest and its local parent poms)
+	path2, err := copyManifest(c.Manifest, path1, filepath.Join(w.Dir, "run2"))
 	if err != nil {
 		return out(false), fmt.Errorf("harness: %v", err)
 	}
@@ -383,8 +394,7 @@ func propC12(c c12Case) (ev.Outcome, error) {
 		return out(false), nil
 	}
 	if err2 != nil {
-		written, _ := os.ReadFile(path1)
-		return out(true), fmt.Errorf("after applying %s the written manifest cannot be analysed again: %v\n%s", describePatch(p), err2, written)
+		return out(true), fmt.Errorf("after applying %s the written manifest cannot be analysed again: %v\n%s", describePatch(p), err2, dumpManifest(c.Manifest, path1))
 	}
 	want := map[string]bool{}
 	for id := range ids1 {
@@ -450,7 +460,7 @@ func propC12(c c12Case) (ev.Outcome, error) {
 		// class counter (not part of the verdict): does an unlisted vulnerability that would
 		// otherwise be considered sit in the graph before and after the patch? Counted with an
 		// analysis of a copy of the written manifest under the same options minus the list.
-		if path3, err := copyFile(path1, filepath.Join(w.Dir, "run3")); err == nil {
+		if path3, err := copyManifest(c.Manifest, path1, filepath.Join(w.Dir, "run3")); err == nil {
 			o3 := c.Opts
 			o3.ExplicitVulns = nil
 			var res3 result.Result
@@ -471,7 +481,7 @@ func propC12(c c12Case) (ev.Outcome, error) {
 		}
 	}
 	if !reflect.DeepEqual(sortedKeys(want), sortedKeys(got)) {
-		written, _ := os.ReadFile(path1)
+		written := dumpManifest(c.Manifest, path1)
 		note := ""
 		if explicit {
 			note = fmt.Sprintf(" (explicit list %v; ids in some node of the original graph, unfiltered: %v)", c.Opts.ExplicitVulns, sortedKeys(inOriginal))
